@@ -164,8 +164,17 @@ def rule_R11(text, file, line0, log):
     return re.sub(r'crate::prelude::vec!', sub, text)
 
 
+def rule_R9(text, file, line0, log):
+    """struct field of fn-pointer type `f: fn() -> X,` -> `f: FnPtr,` (opaque token type declared by the template)"""
+    def sub(m):
+        log.rw('R9', file, line0 + text.count('\n', 0, m.start()), norm(m.group(0)), '%s: FnPtr,' % m.group(1))
+        return '%s: FnPtr,' % m.group(1)
+    return re.sub(r'\b(\w+)\s*:\s*fn\(\)\s*->\s*[\w<>:]+\s*,', sub, text)
+
+
 def global_rules(text, file, line0, log, **kw):
     text = strip_attrs_and_vis(text, file, line0, log, **kw)
+    text = rule_R9(text, file, line0, log)
     text = rule_R1(text, file, line0, log)
     text = rule_R2(text, file, line0, log)
     text = rule_R11(text, file, line0, log)
